@@ -40,9 +40,6 @@ if __name__ == "__main__":
     print(json.dumps(r.to_json()))
     seen = set()
     for f in r.failures:
-        k = (f["contract"], tuple(f["tags"]))
-        if k in seen and len(seen) > 40:
-            continue
-        seen.add(k)
-        print("FAILURE", json.dumps({k: v for k, v in f.items() if k != "replay_src"})[:1500])
-    print("failures:", len(r.failures), "distinct (contract,tags):", len({(f["contract"], tuple(f["tags"])) for f in r.failures}))
+        seen.add((f["contract"], tuple(f.get("root", f["tags"]))))
+        print("FAILURE", json.dumps(dict(contract=f["contract"], tags=f["tags"], case=f["case"], detail=f["detail"][:600]))[:1600])
+    print("failure records:", len(r.failures), "distinct (contract, root tags):", len(seen))
